@@ -2,6 +2,7 @@ package ipfsproxy
 
 import (
 	"context"
+	"encoding/json"
 	"errors"
 	"mime/multipart"
 	"net/http"
@@ -20,6 +21,8 @@ var vrfEntries = map[string]func(){
 	"VrfC12PinOps": VrfC12PinOps,
 	"VrfC12Update": VrfC12Update,
 	"VrfC12Add":    VrfC12Add,
+	"VrfC12PinLs":  VrfC12PinLs,
+	"VrfC12RepoStat": VrfC12RepoStat,
 }
 
 type vrfWriter struct {
@@ -27,6 +30,7 @@ type vrfWriter struct {
 	headers   int
 	status    int
 	documents int
+	last      []byte // the last body chunk written
 }
 
 func (w *vrfWriter) Header() http.Header { return w.hdr }
@@ -35,6 +39,7 @@ func (w *vrfWriter) Write(b []byte) (int, error) {
 		w.headers, w.status = 1, 200
 	}
 	w.documents++
+	w.last = b
 	return len(b), nil
 }
 func (w *vrfWriter) WriteHeader(code int) {
@@ -58,6 +63,10 @@ type vrfSvc struct {
 	resolve cid.Cid
 	resolveFails bool
 	addedRoot cid.Cid
+	pinset    []cid.Cid // what Cluster.Pins / PinGet know
+	readFails bool      // Pins / PinGet / Peers fail
+	peers     []peer.ID
+	stats     map[peer.ID]*api.IPFSRepoStat // nil entry = unreachable
 }
 
 func (s *vrfSvc) answer() bool {
@@ -100,6 +109,61 @@ func (a *vrfClusterAPI) Unpin(ctx context.Context, in *api.Pin, out *api.Pin) er
 	*out = *in
 	return nil
 }
+func (a *vrfClusterAPI) PinGet(ctx context.Context, in cid.Cid, out *api.Pin) error {
+	a.s.calls = append(a.s.calls, vrfCall{svc: "Cluster", method: "PinGet", pin: api.PinCid(in)})
+	if a.s.readFails {
+		return vrfErrCluster
+	}
+	for _, c := range a.s.pinset {
+		if c.Equals(in) {
+			*out = *api.PinCid(c)
+			return nil
+		}
+	}
+	return errors.New("not found")
+}
+func (a *vrfClusterAPI) Pins(ctx context.Context, in struct{}, out *[]*api.Pin) error {
+	a.s.calls = append(a.s.calls, vrfCall{svc: "Cluster", method: "Pins"})
+	if a.s.readFails {
+		return vrfErrCluster
+	}
+	for _, c := range a.s.pinset {
+		*out = append(*out, api.PinCid(c))
+	}
+	return nil
+}
+
+type vrfConsensusAPI struct{ s *vrfSvc }
+
+func (a *vrfConsensusAPI) Peers(ctx context.Context, in struct{}, out *[]peer.ID) error {
+	a.s.calls = append(a.s.calls, vrfCall{svc: "Consensus", method: "Peers"})
+	if a.s.readFails {
+		return vrfErrCluster
+	}
+	*out = append(*out, a.s.peers...)
+	return nil
+}
+
+var vrfTheSvc *vrfSvc
+var vrfErrUnreachable = errors.New("dial backoff")
+
+// engine hook of the gorpc model: calls addressed to other peers
+func vrfRPCRemote(dest peer.ID, svc, method string, args, reply interface{}) (bool, error) {
+	if dest == "" {
+		return false, nil
+	}
+	vrfTheSvc.calls = append(vrfTheSvc.calls, vrfCall{svc: svc, method: method})
+	st := vrfTheSvc.stats[dest]
+	if st == nil {
+		return true, vrfErrUnreachable
+	}
+	if r, ok := reply.(*api.IPFSRepoStat); ok {
+		*r = *st
+	}
+	return true, nil
+}
+func vrfIsAuthError(err error) bool { return false }
+
 // the three endpoints the real adder needs (native replay runs the real add)
 func (a *vrfClusterAPI) BlockAllocate(ctx context.Context, in *api.Pin, out *[]peer.ID) error {
 	a.s.calls = append(a.s.calls, vrfCall{svc: "Cluster", method: "BlockAllocate", pin: in})
@@ -143,6 +207,10 @@ func vrfNewProxy(s *vrfSvc) *Server {
 	if err := srv.RegisterName("IPFSConnector", &vrfIPFSAPI{s}); err != nil {
 		panic(err)
 	}
+	if err := srv.RegisterName("Consensus", &vrfConsensusAPI{s}); err != nil {
+		panic(err)
+	}
+	vrfTheSvc = s
 	cfg := &Config{ExtractHeadersPath: "/api/v0/version", ExtractHeadersTTL: 300000000000}
 	p := &Server{ctx: context.Background(), config: cfg, nodeScheme: "http", nodeAddr: "http://127.0.0.1:1",
 		ipfsRoundTripper: http.DefaultTransport}
@@ -350,4 +418,100 @@ func VrfC12Add() {
 		vrf_assert((unpins == 1) == vrf_and(added, pin == "false"), "C12.add.unpin-iff-asked")
 	}
 	vrf_reach("C12.add.end")
+}
+
+// VrfC12PinLs: pin/ls is answered from the cluster pinset, never by the daemon,
+// and performs no state-changing operation.
+func VrfC12PinLs() {
+	s := &vrfSvc{readFails: vrf_nondet_bool("cluster_read_fails")}
+	for i := 0; i < 2; i++ {
+		if vrf_choice("in_pinset", 2) == 1 {
+			s.pinset = append(s.pinset, vrfTestCid(i))
+		}
+	}
+	p := vrfNewProxy(s)
+	args := []string{"", vrfTestCid(0).String(), vrfTestCid(2).String(), "not-a-cid"}
+	k := vrf_choice("arg", len(args))
+	q := url.Values{}
+	if k > 0 {
+		q.Set("arg", args[k])
+	}
+	r := &http.Request{Method: "POST", URL: &url.URL{Path: "/api/v0/pin/ls", RawQuery: q.Encode()}, Header: http.Header{}}
+	w := &vrfWriter{hdr: http.Header{}}
+	p.pinLsHandler(w, r)
+	vrf_assert(w.headers == 1, "C12.response.one-status")
+	vrf_assert(!s.mutatingSucceeded(), "C12.pinls.read-only")
+	var body ipfsPinLsResp
+	if w.status == 200 {
+		vrf_assert(json.Unmarshal(w.last, &body) == nil, "C12.pinls.body-is-a-listing")
+	}
+	switch {
+	case k == 3:
+		vrf_assert(w.status >= 400 && len(s.calls) == 0, "C12.pinls.bad-cid-refused")
+	case k == 0:
+		vrf_assert(len(s.calls) == 1 && s.calls[0].method == "Pins", "C12.pinls.lists-the-pinset")
+		if s.readFails {
+			vrf_assert(w.status >= 400, "C12.pinls.error-reported")
+		} else {
+			vrf_assert(w.status == 200 && len(body.Keys) == len(s.pinset), "C12.pinls.exactly-the-pinset")
+			for _, c := range s.pinset {
+				_, ok := body.Keys[c.String()]
+				vrf_assert(ok, "C12.pinls.exactly-the-pinset")
+			}
+		}
+	default:
+		vrf_assert(len(s.calls) == 1 && s.calls[0].method == "PinGet" && s.calls[0].pin.Cid.String() == args[k], "C12.pinls.asks-for-the-cid")
+		held := false
+		for _, c := range s.pinset {
+			if c.String() == args[k] {
+				held = true
+			}
+		}
+		if held && !s.readFails {
+			_, ok := body.Keys[args[k]]
+			vrf_assert(w.status == 200 && ok && len(body.Keys) == 1, "C12.pinls.pinned-listed")
+		} else {
+			vrf_assert(w.status >= 400, "C12.pinls.not-pinned-is-an-error")
+		}
+	}
+	vrf_reach("C12.pinls.end")
+}
+
+// VrfC12RepoStat: repo/stat is the sum over the reachable cluster peers.
+func VrfC12RepoStat() {
+	s := &vrfSvc{readFails: vrf_nondet_bool("cluster_read_fails"), stats: map[peer.ID]*api.IPFSRepoStat{}}
+	n := vrf_choice("peers", 3)
+	var wantSize, wantMax uint64
+	for i := 0; i < n; i++ {
+		pid := peer.ID([]string{"pA", "pB"}[i])
+		s.peers = append(s.peers, pid)
+		if vrf_choice("peer_reachable", 2) == 1 {
+			st := &api.IPFSRepoStat{RepoSize: vrf_nondet_uint64("repo_size"), StorageMax: vrf_nondet_uint64("storage_max")}
+			s.stats[pid] = st
+			wantSize += st.RepoSize
+			wantMax += st.StorageMax
+		}
+	}
+	p := vrfNewProxy(s)
+	r := &http.Request{Method: "POST", URL: &url.URL{Path: "/api/v0/repo/stat"}, Header: http.Header{}}
+	w := &vrfWriter{hdr: http.Header{}}
+	p.repoStatHandler(w, r)
+	vrf_assert(w.headers == 1, "C12.response.one-status")
+	vrf_assert(!s.mutatingSucceeded(), "C12.repostat.read-only")
+	if s.readFails {
+		vrf_assert(w.status >= 400, "C12.repostat.error-reported")
+		vrf_reach("C12.repostat.end-error")
+		return
+	}
+	var body api.IPFSRepoStat
+	vrf_assert(w.status == 200 && json.Unmarshal(w.last, &body) == nil, "C12.repostat.ok")
+	vrf_assert(vrf_and(body.RepoSize == wantSize, body.StorageMax == wantMax), "C12.repostat.sum-of-reachable-peers")
+	asked := 0
+	for _, c := range s.calls {
+		if c.svc == "IPFSConnector" && c.method == "RepoStat" {
+			asked++
+		}
+	}
+	vrf_assert(asked == n, "C12.repostat.every-peer-asked-once")
+	vrf_reach("C12.repostat.end")
 }
